@@ -18,6 +18,7 @@ type SolverCfg struct {
 	RaceMS    int64 // timeout of the fallback race
 	Second    bool  // thorough: re-discharge by a second, different solver
 	CoverMS   int64
+	HeadMS    int64 // head start of the first solver before the others join the race
 	Workers   int
 	Seed      int
 }
@@ -127,6 +128,9 @@ func (e *Engine) discharge(o *Obligation, cfg *SolverCfg) {
 	if o.Cover {
 		fms = cfg.CoverMS
 	}
+	if !o.Cover {
+		fms = cfg.HeadMS
+	}
 	first := runSolver(context.Background(), "z3-new", fz, fms)
 	if o.Cover {
 		// vacuity guard: a definite unsat from ANY solver is a failure; sat from any is reassuring
@@ -151,28 +155,7 @@ func (e *Engine) discharge(o *Obligation, cfg *SolverCfg) {
 	decided := func(r solverRun) bool { return r.status == "unsat" || r.status == "sat" }
 	res := first
 	if !decided(first) {
-		fc := base + ".cvc5.smt2"
-		os.WriteFile(fc, []byte(e.query(o, false, true)), 0o644)
-		ctx, cancel := context.WithCancel(context.Background())
-		ch := make(chan solverRun, 3)
-		go func() { ch <- runSolver(ctx, "z3", fz, cfg.RaceMS) }()
-		go func() { ch <- runSolver(ctx, "cvc5", fc, cfg.RaceMS) }()
-		n := 2
-		if cfg.RaceMS > cfg.FirstMS {
-			n = 3
-			go func() { ch <- runSolver(ctx, "z3-new", fz, cfg.RaceMS) }()
-		}
-		for i := 0; i < n; i++ {
-			r := <-ch
-			if decided(r) {
-				res = r
-				break
-			}
-			if res.status == "error" || res.status == "" {
-				res = r
-			}
-		}
-		cancel()
+		res = e.race(o, base, fz, cfg)
 	}
 	o.Status, o.Solver = res.status, res.name
 	if res.status == "sat" {
@@ -228,4 +211,27 @@ func (e *Engine) dischargeAll(obls []*Obligation, cfg *SolverCfg) {
 	}
 	close(ch)
 	wg.Wait()
+}
+
+// race runs all three solvers concurrently and returns the first decided answer.
+func (e *Engine) race(o *Obligation, base, fz string, cfg *SolverCfg) solverRun {
+	fc := base + ".cvc5.smt2"
+	os.WriteFile(fc, []byte(e.query(o, false, true)), 0o644)
+	ctx, cancel := context.WithCancel(context.Background())
+	defer cancel()
+	ch := make(chan solverRun, 3)
+	go func() { ch <- runSolver(ctx, "z3-new", fz, cfg.RaceMS) }()
+	go func() { ch <- runSolver(ctx, "z3", fz, cfg.RaceMS) }()
+	go func() { ch <- runSolver(ctx, "cvc5", fc, cfg.RaceMS) }()
+	var res solverRun
+	for i := 0; i < 3; i++ {
+		r := <-ch
+		if r.status == "unsat" || r.status == "sat" {
+			return r
+		}
+		if res.status == "" || res.status == "error" || res.status == "cancelled" {
+			res = r
+		}
+	}
+	return res
 }
